@@ -97,6 +97,9 @@ def verify_one(job):
         except Unsupported as e:
             res["unsupported"] = str(e)
             obs = []
+        except Exception as e:  # noqa - the generator met code it cannot execute: undecided, never an alarm
+            res["unsupported"] = f"VC generation failed on this source ({type(e).__name__}: {e})"
+            obs = []
         res["gen_s"] = time.time() - t0
         for ob in obs:
             if opts.get("defer"):
